@@ -742,7 +742,16 @@ class Interp:
             op = {'gt': 'Gt', 'lt': 'Lt', 'ge': 'Ge', 'le': 'Le', 'eq': 'Eq', 'ne': 'Ne'}[m.group(1)]
             if isinstance(d[0], Enum) or isinstance(d[1], Enum):
                 if op not in ('Eq', 'Ne'):
-                    raise Untranslatable('ordering comparison of enum values')
+                    # derived PartialOrd on field-less enums = declaration order (read from the source)
+                    a_, b_ = d[0], d[1]
+                    if not (isinstance(a_, Enum) and isinstance(b_, Enum)) or a_.fields or b_.fields:
+                        raise Untranslatable('ordering comparison of enum values with payload')
+                    orders = [vs for vss in self.mir.enums.values() for vs in vss if a_.variant in vs and b_.variant in vs]
+                    res = set((vs.index(a_.variant) > vs.index(b_.variant)) - (vs.index(a_.variant) < vs.index(b_.variant)) for vs in orders)
+                    if len(res) != 1:
+                        raise Untranslatable('cannot order enum variants %s / %s' % (a_.variant, b_.variant))
+                    sgn = res.pop()
+                    return [(pc, {'Gt': sgn > 0, 'Lt': sgn < 0, 'Ge': sgn >= 0, 'Le': sgn <= 0}[op])]
                 eq = self.struct_eq(d[0], d[1])
                 return [(pc, eq if op == 'Eq' else ((not eq) if isinstance(eq, bool) else z3.Not(eq)))]
             return [(pc, self.cmp(op, d[0], d[1]))]
